@@ -51,10 +51,14 @@ type State struct {
 	ghost map[string]Term           // contract-level ghost variables
 	dead  bool
 	held  map[string]string // lock state: path -> "R"/"W" terms are static strings here
+	exprAlias map[types.Object]ast.Expr // unrolled range variable -> element expression
 }
 
 func (s *State) clone() *State {
-	n := &State{guard: s.guard, vars: make(map[types.Object]Term, len(s.vars)), alias: make(map[types.Object]ast.Expr, len(s.alias)), ghost: make(map[string]Term, len(s.ghost)), dead: s.dead, held: map[string]string{}}
+	n := &State{guard: s.guard, vars: make(map[types.Object]Term, len(s.vars)), alias: make(map[types.Object]ast.Expr, len(s.alias)), ghost: make(map[string]Term, len(s.ghost)), dead: s.dead, held: map[string]string{}, exprAlias: map[types.Object]ast.Expr{}}
+	for k, v := range s.exprAlias {
+		n.exprAlias[k] = v
+	}
 	for k, v := range s.vars {
 		n.vars[k] = v
 	}
@@ -105,6 +109,7 @@ type FuncCtx struct {
 	usedContracts map[string]bool
 	byteSlices []byteLeaf
 	groundTest string
+	havocSources []Term
 }
 
 type byteLeaf struct {
@@ -295,7 +300,7 @@ func (fc *FuncCtx) merge(states []*State) *State {
 	}
 	res := live[0].clone()
 	for _, s := range live[1:] {
-		n := &State{vars: map[types.Object]Term{}, alias: res.alias, ghost: map[string]Term{}, held: res.held}
+		n := &State{vars: map[types.Object]Term{}, alias: res.alias, ghost: map[string]Term{}, held: res.held, exprAlias: res.exprAlias}
 		n.guard = fc.compactBool(or(res.guard, s.guard))
 		keys := map[types.Object]bool{}
 		for k := range res.vars {
